@@ -50,7 +50,7 @@ EXPECTED_PROBES = ['roundtrip_local', 'roundtrip_network', 'multi_blob', 'exact_
 MAX_BLOB = 2 * 1024 * 1024
 TAMPERS = ['stream_name', 'key', 'suggested_file_name', 'blob_hash', 'blob_num', 'iv', 'length', 'swap', 'drop_terminator',
            'terminator_hash', 'terminator_length', 'truncate_json', 'not_json', 'stream_hash', 'drop_blob', 'dup_blob', 'json_list',
-           'missing_key']
+           'missing_key', 'stream_hash_blank', 'stream_hash_blank_plus', 'stream_hash_other_valid', 'field_type']
 NAME_ALPHABET = ['a', 'B', '7', ' ', '.', '..', '\\', ':', '*', '?', '"', '<', '>', '|', '\x01', '\x1f', '\t', '\n', 'é', '漢', '🙂',
                  'CON', 'NUL', 'COM1', 'LPT9', '.txt', '.mp4', '-', '_', '%', '\x7f', '́']
 
@@ -175,6 +175,20 @@ def tamper(d, op, r):
         return r.choice([b'\x00\x01\x02 not json', b'{{{{', b'<html></html>', b'\xff\xfe\xfd'])
     elif what == 'stream_hash':
         d['stream_hash'] = flip_hex(d['stream_hash'])
+    elif what in ('stream_hash_blank', 'stream_hash_blank_plus'):
+        # a stream hash that is not a hash at all (empty / null / falsy / wrong type) is inconsistent too,
+        # alone or together with one altered committed field
+        d['stream_hash'] = r.choice(['', None, 0, False, [], {}, ' ', '0'])
+        if what == 'stream_hash_blank_plus':
+            return tamper(d, dict(op, what=r.choice(['key', 'stream_name', 'blob_hash', 'iv', 'length', 'suggested_file_name'])), r)
+    elif what == 'stream_hash_other_valid':
+        # the (valid) stream hash of a different descriptor
+        other = json.loads(json.dumps(d))
+        other['key'] = flip_hex(other['key'])
+        d['stream_hash'] = ref_stream_hash(other)
+    elif what == 'field_type':
+        k = r.choice(['key', 'stream_name', 'suggested_file_name', 'blobs'])
+        d[k] = r.choice([None, 5, [], {}, '', True]) if k != 'blobs' else r.choice([None, {}, 'x', [[]], [5], [d['blobs'][-1], d['blobs'][-1]]])
     elif what == 'drop_blob':
         if len(data) < 2:
             return None
